@@ -637,6 +637,23 @@ def rule_limits(prog, res):
             and v.args[0].args[0].args[0] == "<core::str::Bytes as core::iter::Iterator>::next"
         if exact and is_const(a[2]) and const_val(a[2]) == 8:
             okb = any(b in body for body in loops.values())
+            if okb:
+                # ... every one of them: the write is performed by every completed iteration, and the loop is driven by bytes() of the
+                # message's own text directly (no adaptor that limits or filters), so exactly `byte count` bytes follow the count
+                import looprules
+                okw, dw = looprules.action_complete(f, fa, b)
+                src = libmodel.iterator_source(v.args[0].args[0], fa)
+                drive = False
+                if src is not None:
+                    y = src[0]
+                    chain = []
+                    while y.op == "call" and y.args[1] and len(chain) < 6:
+                        chain.append(y.args[0])
+                        y = y.args[1][0]
+                    drive = all(c_.endswith("::into_iter") or c_ == "core::str::<impl str>::bytes" for c_ in chain) and "core::str::<impl str>::bytes" in chain \
+                        and from_arg_string(src[0], b)
+                res.ob("X-lim", "1029 encode | no byte is skipped: the write is on every iteration and the loop runs over bytes() of the text itself", okw and drive,
+                       dw if not okw else ("iterator chain %s" % chain if src is not None else "iterator source not recognised"), f.loc)
     res.ob("X-lim", "1029 encode | every byte of the text is written with 8 bits", okb, "", f.loc)
     errs = set()
     for b in sorted(f.reachable()):
